@@ -25,12 +25,14 @@ pub struct Plan {
     /// deterministic long walks: (number of starts, plies, take a root every n plies, null move
     /// every n-th ply (0 = never), bounds)
     pub walk: Option<(usize, usize, usize, usize, Bounds)>,
+    /// king-march lines: (number of starts, plies, take a root every n plies, bounds)
+    pub march: Option<(usize, usize, usize, Bounds)>,
     pub raws: Vec<(Box<dyn RawUniverse>, Bounds)>,
 }
 
 impl Plan {
     pub fn empty() -> Plan {
-        Plan { start: None, r960: None, dfrc: None, mid: None, clock: None, lines: None, walk: None, raws: Vec::new() }
+        Plan { start: None, r960: None, dfrc: None, mid: None, clock: None, lines: None, walk: None, march: None, raws: Vec::new() }
     }
 }
 
@@ -84,6 +86,16 @@ pub fn run_plan(run: &mut Run, plan: &Plan, mon: &dyn Monitor, cand: &dyn CandMo
         let t = bfs(&roots, bd, mon, &run.sink);
         run.add("R-WALK", bj(bd, json!({"roots": roots.len(), "starts": starts.len() * 3, "plies_per_line": plies, "root_every_plies": root_every, "null_move_every_plies": null_every,
             "schedule": "move index (mult*ply + w + 3b) mod #legal in the reference model's sorted list, mult 5 on double-Chess960 starts (n, 7n+13 mod 960) and mult 11 on Chess960 starts (n, n); plus 'aggressive' lines of twice the length (mult 3, no null moves) in which the mover picks among its checking moves if any, else among its captures if any", "mode": "explicit-state BFS from every root"})), true, t0, t);
+    }
+    if let Some((nstarts, plies, root_every, bd)) = &plan.march {
+        let t0 = Instant::now();
+        let step = std::cmp::max(1, 960 / *nstarts);
+        let starts: Vec<(u32, u32)> = (0..960u32).step_by(step).flat_map(|n| [(n, (n * 11 + 5) % 960), (n, n)]).collect();
+        let roots = march_roots(&starts, *plies, *root_every, &run.sink);
+        let deep = roots.iter().filter(|(_, bd)| { let p = alpha(bd); refmodel::Col::ALL.iter().any(|c| p.king_sq(*c).map_or(false, |k| refmodel::rank_of(k) == c.other().back_rank()) && (p.rights[c.other() as usize][0].is_some() || p.rights[c.other() as usize][1].is_some())) }).count();
+        let t = bfs(&roots, bd, mon, &run.sink);
+        run.add("R-MARCH", bj(bd, json!({"roots": roots.len(), "starts": starts.len(), "plies_per_line": plies, "root_every_plies": root_every, "roots_with_a_king_on_the_enemy_back_rank_while_the_enemy_has_a_castling_right": deep,
+            "schedule": "one side walks its king towards a corner of the enemy back rank (closest legal king step, ties by index), otherwise a scheduled non-king non-rook move; the other side never moves king or rooks while it has another move; no null moves", "mode": "explicit-state BFS from every root"})), true, t0, t);
     }
     if let Some(bd) = &plan.r960 {
         let t0 = Instant::now();
